@@ -14,6 +14,8 @@ type Fail = (String, String);
 const PREFIX_SETS: &[&[&str]] = &[
     &[], &[], &["/abs"], &["/abs/"], &["/abs/y", "/abs"], &["/abs", "/abs/y"], &["/nomatch"], &["src"], &["src/"], &["http://h"],
     &["x"], &["r"], &["~"], &["~", "/abs"], &["/a"], &["/abs/x.js"],
+    // a later prefix matches what is left after an earlier one was stripped (only the first may apply)
+    &["/abs", "y"], &["/abs/", "y/"], &["src", "a.js"], &["http://h", "x.js"], &["/abs", "/abs"], &["r", "src"],
 ];
 
 /// first matching prefix (normalised to end in '/') is removed
